@@ -172,7 +172,14 @@ class ReportTable:
         if self.header_lines:
             for line in self.header_lines:
                 if not line.is_hidden:
-                    column_names = [cell.text.lower() for cell in line.cells]
+                    # A repeated title is qualified with its column position, so that no cell is lost
+                    for pos, cell in enumerate(line.cells):
+                        key = cell.text.lower()
+                        if key in column_names:
+                            key = f"{key}_{pos + 1}"
+                            while key in column_names:
+                                key += "_"
+                        column_names.append(key)
                     break  # Use first header line
 
         # Convert body rows to data records
